@@ -9,7 +9,7 @@ done
 cd coq
 { echo "-Q theories Ford"; find theories -name '*.v' | sort; } > _CoqProject
 coq_makefile -f _CoqProject -o Makefile
-timeout 3000 make -j16
+timeout 1500 make -j16
 if grep -rnE '\b(Admitted|admit|Axiom|Parameter|Conjecture)\b' theories --include=*.v | grep -v '^\S*:\s*[0-9]*:\s*(\*'; then
   echo "forbidden construct found" >&2; exit 1
 fi
